@@ -259,8 +259,16 @@ func c11Oracle(cs c11Case, o c11Obs) string {
 	return ""
 }
 
+var c11Hung bool
+
 func c11Check(ctx *Ctx, idx int, cs c11Case) {
+	if c11Hung {
+		return // a hang was already found: every further call would leak goroutines and time
+	}
 	o := c11Run(cs)
+	if o.Outcome == "hang" {
+		c11Hung = true
+	}
 	ctx.Rep.Case(fmt.Sprintf("%d/%d/%v/%v", cs.N, cs.M, cs.Order, cs.Fail), cs.N > cs.M && cs.M >= 1)
 	switch {
 	case cs.N <= cs.M:
